@@ -271,6 +271,9 @@ func (fi *FuncInfo) mem() *memInfo {
 // Empty when no write to those keys can precede or interleave.
 func (fi *FuncInfo) Version(keys map[memKey]bool, at ssa.Instruction) string {
 	if len(keys) == 0 || at == nil || at.Block() == nil || at.Parent() != fi.Fn {
+		if fi.outerFI != nil && fi.outerAt != nil && len(keys) > 0 {
+			return fi.outerFI.Version(keys, fi.outerAt)
+		}
 		return ""
 	}
 	mi := fi.mem()
@@ -307,12 +310,17 @@ func (fi *FuncInfo) Version(keys map[memKey]bool, at ssa.Instruction) string {
 			ids = append(ids, fmt.Sprintf("L%d.%d", wb, wi))
 		}
 	}
+	outer := ""
+	if fi.outerFI != nil && fi.outerAt != nil {
+		// an inlined predicate observes memory as its caller does at the call
+		outer = fi.outerFI.Version(keys, fi.outerAt)
+	}
 	if len(ids) == 0 {
-		return ""
+		return outer
 	}
 	sort.Strings(ids)
 	h := sha1.Sum([]byte(strings.Join(ids, ",")))
-	return fmt.Sprintf("@%x", h[:3])
+	return outer + fmt.Sprintf("@%x", h[:3])
 }
 
 // loadVersion computes the version tag of a load instruction through address a.
